@@ -292,6 +292,24 @@ func (p *Program) buildScript(o *Obligation) *Script {
 	for _, k := range sortedKeys(o.Inputs) {
 		sc.Values = append(sc.Values, flattenValues(o.Inputs[k], 0)...)
 	}
+	if _, ok := ufDecls["str_len"]; ok {
+		var extra []*Term
+		for _, v := range sc.Values {
+			if v.Sort == SStr {
+				extra = append(extra, UF("str_len", SInt, v))
+			}
+		}
+		sc.Values = append(sc.Values, extra...)
+	}
+	if _, ok := ufDecls["denom_valid"]; ok {
+		var extra []*Term
+		for _, v := range sc.Values {
+			if v.Sort == SStr {
+				extra = append(extra, UF("denom_valid", SBool, v))
+			}
+		}
+		sc.Values = append(sc.Values, extra...)
+	}
 	return sc
 }
 
